@@ -113,6 +113,8 @@ func allProps() []Prop {
 					for _, ln := range []int{0, 1, 2, 3} {
 						addStep(append(append([]string{}, fl...), fmt.Sprintf("ln=%d", ln)))
 					}
+				} else if o == 2 && rz == 1 && dz == 1 {
+					// no recovery timeout and no switching delay: no timer exists in any state, nothing to fire
 				} else {
 					addStep(fl)
 				}
